@@ -88,11 +88,7 @@ func ipIn(ip string, cidrs []string) bool {
 // admits is the reference predicate of internal authentication, from the statement: some configured user entry
 // has an empty IP list or one containing the client IP, grants the action (empty path, equal path, or a '~' regular
 // expression found in the path), and is 'any' or matches the supplied user name and password.
-func admits(us []user, cr e2elib.Creds, action, path string) bool {
-	ip := cr.SrcIP
-	if ip == "" {
-		ip = "127.0.0.1"
-	}
+func admits(us []user, cr e2elib.Creds, ip, action, path string) bool {
 	for _, u := range us {
 		if !ipIn(ip, u.IPs) {
 			continue
@@ -126,6 +122,36 @@ func admits(us []user, cr e2elib.Creds, action, path string) bool {
 	return false
 }
 
+// trustedProxy is the proxy that the "p" configuration world trusts (hlsTrustedProxies, webrtcTrustedProxies).
+const trustedProxy = "127.0.0.1"
+
+// clientIP is the reference model of the address a request is judged by: the TCP peer address, unless the peer is
+// a configured trusted proxy; only then the address the proxy forwards counts (X-Forwarded-For read from the right,
+// skipping trusted proxies; else X-Real-Ip). With the default, empty, list of trusted proxies no header is believed.
+// The non-HTTP protocols have no such headers.
+func clientIP(c Case) string {
+	peer := c.Cred.SrcIP
+	if peer == "" {
+		peer = "127.0.0.1"
+	}
+	if c.World != "p" || peer != trustedProxy || (c.Proto != "hls" && c.Proto != "webrtc") {
+		return peer
+	}
+	if xff, ok := c.Cred.Headers["X-Forwarded-For"]; ok {
+		parts := strings.Split(xff, ",")
+		for i := len(parts) - 1; i >= 0; i-- {
+			ip := strings.TrimSpace(parts[i])
+			if ip != trustedProxy || i == 0 {
+				return ip
+			}
+		}
+	}
+	if xr, ok := c.Cred.Headers["X-Real-Ip"]; ok {
+		return strings.TrimSpace(xr)
+	}
+	return peer
+}
+
 // ---------------------------------------------------------------------------------------------------------------
 // Cases
 
@@ -154,6 +180,39 @@ func identities() []ident {
 	return ids
 }
 
+const claimed = "10.1.2.3" // inside the 10.0.0.0/8 network of user v5
+
+func forge(h map[string]string, claimedIPs ...string) e2elib.Creds {
+	return e2elib.Creds{User: "v5", Pass: "p5", Headers: h, ClaimedIPs: claimedIPs}
+}
+
+// forgedIdentities are clients of the HTTP-based protocols that present the right credentials of the IP-restricted
+// user v5 from an address v5 is not allowed from, and claim an allowed one in proxy headers.
+func forgedIdentities() []ident {
+	return []ident{
+		{"v5+xff", forge(map[string]string{"X-Forwarded-For": claimed}, claimed)},
+		{"v5+xrealip", forge(map[string]string{"X-Real-Ip": claimed}, claimed)},
+		{"v5+xff+xrealip", forge(map[string]string{"X-Forwarded-For": claimed, "X-Real-Ip": claimed}, claimed)},
+		{"v5+xff-chain", forge(map[string]string{"X-Forwarded-For": claimed + ", 127.0.0.1"}, claimed)},
+	}
+}
+
+// proxyWorldIdentities run against the configuration in which 127.0.0.1 is a trusted proxy: there the forwarded
+// address is the one that counts, but only when the TCP peer is the trusted proxy.
+func proxyWorldIdentities() []ident {
+	ids := forgedIdentities()
+	fromAlt := forge(map[string]string{"X-Forwarded-For": claimed}, claimed)
+	fromAlt.SrcIP = altIP
+	ids = append(ids,
+		ident{"v5", e2elib.Creds{User: "v5", Pass: "p5"}},
+		ident{"v5@alt+xff", fromAlt}, // the peer 127.0.0.7 is not a trusted proxy: its header is not believed
+		ident{"v7+xff-alt", e2elib.Creds{User: "v7", Pass: "p7", Headers: map[string]string{"X-Forwarded-For": altIP}, ClaimedIPs: []string{altIP}}},
+		ident{"v7@alt+xff-lo", e2elib.Creds{User: "v7", Pass: "p7", SrcIP: altIP, Headers: map[string]string{"X-Forwarded-For": "127.0.0.1"}}},
+		ident{"v2+xff", e2elib.Creds{User: "v2", Pass: "p2", Headers: map[string]string{"X-Forwarded-For": claimed}, ClaimedIPs: []string{claimed}}},
+	)
+	return ids
+}
+
 // Case is one client.
 type Case struct {
 	ID      int          `json:"id"`
@@ -166,6 +225,8 @@ type Case struct {
 	Flow    string       `json:"flow,omitempty"`    // RTSP readers
 	Desc    string       `json:"desc,omitempty"`    // RTSP xsp: the path that is DESCRIBEd
 	Variant string       `json:"variant,omitempty"` // RTSP: server offers "d" = basic+digest, "b" = basic only
+	// World (HTTP protocols): "n" = no trusted proxies (the default), "p" = 127.0.0.1 is a trusted proxy of HLS and WebRTC
+	World string `json:"world,omitempty"`
 }
 
 func (c Case) key() string {
@@ -178,6 +239,9 @@ func (c Case) key() string {
 	}
 	if c.Variant != "" {
 		s += "/" + c.Variant
+	}
+	if c.World == "p" {
+		s += "/proxy-trusted"
 	}
 	return s
 }
@@ -232,12 +296,35 @@ func buildCases(thorough bool) []Case {
 				}
 				if action == "read" {
 					for _, place := range []string{"basic", "bearer"} {
-						add(Case{Proto: "hls", Action: action, Path: pa, Ident: id.Name, Cred: id.Cred, Place: place})
+						add(Case{Proto: "hls", Action: action, Path: pa, Ident: id.Name, Cred: id.Cred, Place: place, World: "n"})
 					}
 				}
 				if thorough {
 					for _, place := range []string{"url", "bearer"} {
-						add(Case{Proto: "webrtc", Action: action, Path: pa, Ident: id.Name, Cred: id.Cred, Place: place})
+						add(Case{Proto: "webrtc", Action: action, Path: pa, Ident: id.Name, Cred: id.Cred, Place: place, World: "n"})
+					}
+				}
+			}
+		}
+	}
+	// HTTP-based protocols: forged proxy headers, with the default (empty) trusted proxies and with 127.0.0.1 trusted
+	for _, world := range []string{"n", "p"} {
+		fids := forgedIdentities()
+		if world == "p" {
+			fids = proxyWorldIdentities()
+		}
+		for _, id := range fids {
+			for _, pa := range paths {
+				for _, action := range []string{"publish", "read"} {
+					if action == "read" {
+						for _, place := range []string{"basic", "bearer"} {
+							add(Case{Proto: "hls", Action: action, Path: pa, Ident: id.Name, Cred: id.Cred, Place: place, World: world})
+						}
+					}
+					if thorough {
+						for _, place := range []string{"url", "bearer"} {
+							add(Case{Proto: "webrtc", Action: action, Path: pa, Ident: id.Name, Cred: id.Cred, Place: place, World: world})
+						}
 					}
 				}
 			}
@@ -277,6 +364,7 @@ var firstPlace = map[string]string{"rtsp": "hdr", "rtsps": "hdr", "rtmp": "query
 // Job is what one worker runs on one Core.
 type Job struct {
 	Variant string `json:"variant"`
+	World   string `json:"world"`
 	Cases   []Case `json:"cases"`
 	TLS     bool   `json:"tls"`
 	Workers int    `json:"workers"`
@@ -327,11 +415,13 @@ func main() {
 		}
 	}
 
-	// Fixed assignment of the cases to the workers: worker w runs a Core of variant "d" (even w) or "b" (odd w);
-	// a case that does not care about the variant goes to the next worker in turn.
+	// Fixed assignment of the cases to the workers. Worker w runs a Core whose RTSP server offers basic+digest (even w)
+	// or basic only (odd w), without trusted proxies (w/2 even) or with 127.0.0.1 as trusted proxy of HLS and WebRTC
+	// (w/2 odd), with RTSPS / RTMPS only on the first workers. A case goes to the next worker in turn that has what it needs.
 	jobs := make([]Job, n)
 	for w := range jobs {
 		jobs[w].Variant = []string{"d", "b"}[w%2]
+		jobs[w].World = []string{"n", "p"}[(w/2)%2]
 		// every TLS listener costs two inotify instances (128 per user, shared with everything else on the machine):
 		// only the first workers have RTSPS / RTMPS, and the TLS cases go there
 		jobs[w].TLS = thorough && w < tlsWorkers
@@ -339,21 +429,22 @@ func main() {
 	}
 	next := map[string]int{}
 	for _, c := range cases {
-		v := c.Variant
-		m := n
-		if c.Proto == "rtsps" || c.Proto == "rtmps" {
-			v += "/tls"
-			m = tlsWorkers
+		needTLS := c.Proto == "rtsps" || c.Proto == "rtmps"
+		k := fmt.Sprintf("%s/%s/%v", c.Variant, c.World, needTLS)
+		w := next[k]
+		for tries := 0; ; tries++ {
+			w %= n
+			j := jobs[w]
+			if (c.Variant == "" || c.Variant == j.Variant) && (c.World == "" || c.World == j.World) && (!needTLS || j.TLS) {
+				break
+			}
+			if tries > n {
+				cleanup()
+				vcommon.Harness("no worker for case %s", c.key())
+			}
+			w++
 		}
-		w, seen := next[v]
-		if !seen && c.Variant == "b" {
-			w = 1
-		}
-		if c.Variant == "" {
-			next[v] = (w + 1) % m
-		} else {
-			next[v] = (w + 2) % m
-		}
+		next[k] = w + 1
 		jobs[w].Cases = append(jobs[w].Cases, c)
 	}
 	var jl []any
@@ -414,12 +505,15 @@ func main() {
 	}
 
 	r.Rule = "protocol x action x path {a,b1,c} x identity (7 users with their password, 4 with a wrong one, 2 with another user's, " +
-		"anonymous; 3 from a second source address) x credential placement (RTSP: unasked Basic header / URL after challenge; " +
+		"anonymous; 3 from a second source address; HTTP protocols: 4 that present an IP-restricted user's credentials with forged " +
+		"X-Forwarded-For / X-Real-Ip, and 9 against a second configuration in which 127.0.0.1 is a trusted proxy) x credential placement (RTSP: unasked Basic header / URL after challenge; " +
 		"RTMP: query; SRT: both stream-id syntaxes; HTTP: Basic / Bearer user:pass) x RTSP flow (DESCRIBE+SETUP+PLAY, SETUP+PLAY, " +
 		"DESCRIBE of another path) x RTSP server methods (basic+digest / basic); a class = protocol/action/placement/flow/variant x " +
 		"predicted verdict x observed protocol steps"
 	r.Exhaustive = *flagOnly == "" && !feederDenied
 	r.Assumptions = []string{
+		"the address a request is judged by is the TCP peer address unless the peer is a configured trusted proxy (hlsTrustedProxies / " +
+			"webrtcTrustedProxies), in which case it is the forwarded address; with the default empty list no header is believed",
 		"one configuration of users and paths (the permission shapes of the design: exact path, any path, regular expression, IP-restricted, none)",
 		"all clients come from loopback addresses (127.0.0.1 and 127.0.0.7); an address outside 127/8 cannot be produced in the sandbox",
 		"the client libraries are the ones the repository depends on; a client is identified in the API by the remote address the server saw",
@@ -453,14 +547,24 @@ func judge(r *vcommon.Run, cases []Case, obs map[int]*Obs, skipped map[int]bool)
 			r.Note("case %s: %s", c.key(), o.TeardownNote)
 		}
 		r.Eval(1)
-		want := admits(users, c.Cred, c.Action, c.Path)
+		ip := clientIP(c)
+		want := admits(users, c.Cred, ip, c.Action, c.Path)
 		verdict := "reject"
 		if want {
 			verdict = "admit"
 		}
 		counts[c.Proto+"/"+c.Action+"/"+verdict]++
 		counts["total/"+verdict]++
-		class := fmt.Sprintf("%s/%s/%s/%s/%s pred=%s steps=%s", c.Proto, c.Action, c.Place, c.Flow, c.Variant, verdict, strings.Join(o.Steps, ","))
+		forged := ""
+		if len(c.Cred.Headers) > 0 {
+			var hs []string
+			for h := range c.Cred.Headers {
+				hs = append(hs, h)
+			}
+			sort.Strings(hs)
+			forged = " world=" + c.World + " forged=" + strings.Join(hs, "+")
+		}
+		class := fmt.Sprintf("%s/%s/%s/%s/%s%s pred=%s steps=%s", c.Proto, c.Action, c.Place, c.Flow, c.Variant, forged, verdict, strings.Join(o.Steps, ","))
 		r.Distinct(class)
 		if c.ID%97 == 0 {
 			var ats []string
@@ -470,6 +574,12 @@ func judge(r *vcommon.Run, cases []Case, obs map[int]*Obs, skipped map[int]bool)
 			r.Sample(map[string]any{"case": c.key(), "predicted": verdict, "outcome": o.Outcome, "steps": o.Steps, "attached": ats})
 		}
 		kc := c.Proto + ":" + c.Action + ":" + c.Place
+		if len(c.Cred.Headers) > 0 {
+			kc += ":forged-proxy-header"
+		}
+		if c.World == "p" {
+			kc += ":proxy-trusted"
+		}
 		if c.Flow != "" && c.Flow != "dsp" {
 			kc += ":" + c.Flow
 		}
@@ -512,10 +622,7 @@ func judge(r *vcommon.Run, cases []Case, obs map[int]*Obs, skipped map[int]bool)
 			for _, rec := range o.Auth[at.ID] {
 				if rec.Admitted && rec.Path == at.Path && rec.Action == at.Role {
 					backed = true
-					wantIP := c.Cred.SrcIP
-					if wantIP == "" {
-						wantIP = "127.0.0.1"
-					}
+					wantIP := ip
 					if rec.IP != wantIP || (!c.Cred.Anon && rec.User != c.Cred.User) || (c.Cred.Anon && rec.User != "") {
 						r.Violation("auth-request-mismatch:"+kc,
 							fmt.Sprintf("%s: the admitted authentication was requested for user %q ip %s", c.key(), rec.User, rec.IP), replay)
